@@ -82,7 +82,9 @@ def build(repo, ns, imports, specs, opens="", postlude=""):
     errors = []
     for sp in specs:
         try:
-            if sp.get("symbolic"):
+            if sp.get("locate") is not None:      # custom locator: callable(Anchors) -> ast expression (AnchorError if absent)
+                e = sp["locate"](A)
+            elif sp.get("symbolic"):
                 e = symbolic_return(A.func(sp["file"], sp["func"]), sp.get("which", -1), sp.get("track_attrs", ()))
             else:
                 e = A.find(sp["file"], sp["func"], **sp["pick"])
@@ -91,7 +93,7 @@ def build(repo, ns, imports, specs, opens="", postlude=""):
                         raise AnchorError(f"{sp['name']}: expected a conditional expression")
                     e = e.orelse if sp["ifexp"] == "orelse" else e.body
             term = A.to_lean(e, sp["env"])
-        except (AnchorError, KeyError, IndexError) as ex:
+        except (AnchorError, KeyError, IndexError, AttributeError, TypeError) as ex:
             errors.append(f"{sp['name']}: {ex}")
             term = None
         hy = " ".join(f"(h{i} : {h})" for i, h in enumerate(sp.get("hyps", [])))
